@@ -57,6 +57,23 @@ PROPS["C18"] = dict(
     thorough=dict(shards=16, timeout=1800),
 )
 
+PROPS["C17"] = dict(
+    pkg="c17", level="exploration", design_ref="DESIGN.md section 3, C17",
+    technique="rapid-generated concurrent workloads with an in-flight gauge and permit conservation; shadow token-bucket over measured clock readings; hook-forced interleaving of the rate limiter's load/store",
+    level_text=("Generated workloads (service times chosen to collide with wait time-outs, errors, panics, pre-cancelled callers) run against the real "
+                "limiter inside a real client; invariants: in-flight gauge <= limit, rejected requests never run, permits conserved at quiescence, "
+                "limiter not wedged. The rate limiter is compared with an interval-arithmetic shadow of its permit clock built from the harness's own "
+                "before/after clock readings, and its load/store window is forced with a verif yield point so the racing schedule is data, not luck."),
+    level_note="Schedules of the concurrent limiter are sampled from the Go scheduler (volume, not coverage); all time-based assertions are one-sided with >=0.2ms slack; the sampled concurrent rate check is weak by nature (stated in DESIGN.md) and the forced one decides.",
+    rule=("concurrent-limiter: rapid-drawn sets of 1..48 requests (start offset, service time, outcome ok/error/panic, optional pre-cancelled context) x limit 1..8 x wait timeout; "
+          "non-trivial = the gauge reached the limit while more requests than permits were outstanding or one timed out. rate-sequential: token/idle sequences x rate x burst x timeout; "
+          "non-trivial = some call had to wait or was rejected. rate-forced: K acquirers parked between load and store (always non-trivial). Distinct by case text."),
+    assumptions=["timers never fire early; clock readings taken by the harness bracket the limiter's own reading of time.Now",
+                 "the rate bound charges neither the first nor the last caller of a window (debt semantics of the implementation, documented in DESIGN.md)"],
+    quick=dict(shards=4, timeout=400),
+    thorough=dict(shards=16, timeout=1800),
+)
+
 # properties not claimed yet (kept current as checks land)
 _ALL = ["C%02d" % i for i in range(1, 21)]
 NOT_APPLICABLE = [dict(property_id=p, reason="check not built yet in this revision (planned in DESIGN.md section 3); not a limit of the technique")
